@@ -53,6 +53,11 @@ def check(inp):
         lines = list(force)
     elif inp.get("user_absent"):
         lines = list(default) if default is not None else []
+    # the same name emitted a second time (another instantiation of a class template, another file) gets the same code
+    out_again = []
+    added_again = w._create_splicer("blk", out_again, default=default, force=force)
+    if out_again != out or bool(added_again) != bool(added):
+        return "the block emitted a second time differs from the first emission: %r then %r" % (out[:4], out_again[:4])
     if bool(added) != (force is not None or not inp.get("user_absent") or default is not None):
         return "_create_splicer reports added=%r for force=%r user_absent=%r default=%r" % (added, force, bool(inp.get("user_absent")), default)
     fp = FP()
